@@ -17,13 +17,14 @@ from vlib import *
 MUSTFAIL_MSG = {"lost", "errreply"}
 
 
-def run_dkgdrv(scs, wd, tag, timeout=1800):
+def run_dkgdrv(scs, wd, tag, timeout=1800, dirk=None):
+    """dirk: path of the real dirk binary - each (fault-free) generation then runs on a cluster of real binaries over gRPC / TLS."""
     exe = build_harness("dkgdrv")
     f = os.path.join(wd, tag + ".in.json")
     o = os.path.join(wd, tag + ".out.ndjson")
     json.dump(scs, open(f, "w"))
     try:
-        p = subprocess.run([exe, "-scenarios", f, "-out", o], cwd=wd, env=dict(os.environ, TMPDIR=wd), stdout=subprocess.PIPE, stderr=subprocess.PIPE, text=True, timeout=timeout)
+        p = subprocess.run([exe, "-scenarios", f, "-out", o] + (["-dirk", dirk] if dirk else []), cwd=wd, env=dict(os.environ, TMPDIR=wd), stdout=subprocess.PIPE, stderr=subprocess.PIPE, text=True, timeout=timeout)
         rc, err = p.returncode, p.stderr
     except subprocess.TimeoutExpired:
         rc, err = -99, "timeout"
@@ -173,6 +174,37 @@ def run_c12(tier, seed, wd, info, verdict):
                 scs.append(sc)
                 meta[sid] = sc
     by = run_parallel(scs, wd, "c12")
+    # clusters of REAL dirk binaries: each instance a process of the shipped program with its own wallet store, certificate and
+    # configuration file, talking to its peers through the repository's own gRPC sender and receiver over mutual TLS
+    bnts = [(2, 2), (3, 2), (3, 3), (4, 3), (3, 1), (3, 4), (4, 2)] if tier == "quick" else [(n, t) for n in range(2, 6) for t in range(1, n + 2)]
+    bscs = []
+    for n, t in bnts:
+        for init in ([1, n] if tier == "quick" and 2 * t > n and t <= n else [1 + (n + t) % n] if tier == "quick" else range(1, n + 1)):
+            k += 1
+            sid = "C12-bin-%d" % k
+            sc = dict(id=sid, ids=list(range(1, n + 1)), n=n, t=t, initiator=init, account="DW/b%d" % k, generate=True, probe=2 * t > n and t <= n)
+            bscs.append(sc)
+            meta[sid] = sc
+    if tier != "quick":
+        for ids in ([2 ** 32 + 7, 2 ** 32 + 14, 2 ** 32 + 21], [2 ** 64 - 1, 2 ** 64 - 4, 2 ** 64 - 7]):
+            k += 1
+            sid = "C12-bin-%d" % k
+            sc = dict(id=sid, ids=ids, n=3, t=2, initiator=ids[1], account="DW/b%d" % k, generate=True, probe=True)
+            bscs.append(sc)
+            meta[sid] = sc
+    chunks = [bscs[i::6] for i in range(6) if bscs[i::6]]
+    with ThreadPoolExecutor(max_workers=6) as ex:
+        bouts = list(ex.map(lambda a: run_dkgdrv(a[1], wd, "c12bin%d" % a[0], dirk=build_dirk()), enumerate(chunks)))
+    nbin = 0
+    for evs_, rc_, err_ in bouts:
+        if rc_ != 0:
+            raise Inconclusive("dkgdrv against dirk binaries exited %s: %s" % (rc_, err_[-400:]))
+        bb = split_scenarios(evs_)
+        by.update(bb)
+        nbin += sum(1 for evs2 in bb.values() if any(e["ev"] == "Outcome" and e["ok"] for e in evs2))
+    if nbin < 3:
+        raise Inconclusive("only %d generations on clusters of dirk binaries succeeded" % nbin)
+    scs = scs + bscs
     lines, index = [], []
     nok = 0
     for sc in scs:
@@ -197,7 +229,8 @@ def run_c12(tier, seed, wd, info, verdict):
                           "generation %s (n=%d t=%d ids=%s initiator=%s): real run rejected by DkgTrace invariant %s %s" %
                           (sid, meta[sid]["n"], meta[sid]["t"], meta[sid]["ids"], meta[sid]["initiator"], violated, extra[1]),
                           dict(scenario=meta[sid], trace=seg[:60], invariant=violated, module="DkgTrace"))
-    return dict(scenarios=len(scs), successful_generations=nok, trace_events=len(lines), sample=lines[index[0][0] - 1:index[0][1]][:8])
+    return dict(scenarios=len(scs), successful_generations=nok, generations_on_clusters_of_dirk_binaries=len(bscs), of_which_successful=nbin, trace_events=len(lines),
+                sample=lines[index[0][0] - 1:index[0][1]][:8])
 
 
 # ------------------------------------------------------------------------------------------ C13
@@ -614,7 +647,7 @@ def replay(prop, path):
     wd = workdir(prop + "-replay")
     try:
         sc = obj["scenario"]
-        evs, rc, err = run_dkgdrv([sc], wd, "replay")
+        evs, rc, err = run_dkgdrv([sc], wd, "replay", dirk=build_dirk() if str(sc.get("id", "")).startswith("C12-bin-") else None)
         lines = []
         if obj["module"] == "ClusterTrace":
             lines.append(dict(ev="Begin", sc=sc["id"], n=sc["n"], t=sc["t"]))
